@@ -114,8 +114,27 @@ func (p *PathFilter) LocationMatches(loc *position.Location) bool {
 	return p.line >= loc.StartPos.Line && p.line <= loc.EndPos.Line
 }
 
+// Checks whether the line of the filter is the first line
+// of the given suite or of one of its ancestors.
+func (p *PathFilter) suiteLineMatches(suite *Suite) bool {
+	for ; suite != nil; suite = suite.Parent {
+		loc := suite.Location
+		if loc == nil {
+			continue
+		}
+		if loc.StartPos.Line == p.line && doublestar.MatchUnvalidated(p.pattern, loc.FilePath) {
+			return true
+		}
+	}
+	return false
+}
+
 func (p *PathFilter) CaseMatches(test *Case) bool {
-	return p.LocationMatches(test.Location())
+	if p.LocationMatches(test.Location()) {
+		return true
+	}
+	// the line of an enclosing `describe` selects every case inside it
+	return p.line >= 0 && p.suiteLineMatches(test.Parent)
 }
 
 func (p *PathFilter) SuiteMatches(suite *Suite) SuiteMatch {
@@ -132,7 +151,7 @@ func (p *PathFilter) SuiteMatches(suite *Suite) SuiteMatch {
 	if p.line < 0 {
 		return SUITE_MATCH_TRUE
 	}
-	if p.line == loc.StartPos.Line {
+	if p.line == loc.StartPos.Line || p.suiteLineMatches(suite.Parent) {
 		return SUITE_MATCH_FULL
 	}
 	if p.line >= loc.StartPos.Line && p.line <= loc.EndPos.Line {
